@@ -86,16 +86,7 @@ def run(ctx):
     ctx.assumptions.append("C17 serializer-level theorems assume the tree hash is injective (sha256 collision resistance); shown satisfiable by C17_premise_satisfiable")
     # one build of the Coq cone for both statement files (the thorough tier rebuilds from clean)
     ctx.proofs(extra_targets=["Props/C29br.vo", "Pins/C29br.vo"])
-    ok2, res, raw = vlib.coq_assumptions("Props/C29br.v")
-    if not ok2:
-        ctx.broken.append(("proof", "Props/C29br.v", "Print Assumptions output could not be matched:\n" + raw[-2000:]))
-    for name, ax in res.items():
-        ctx.obligations += 1
-        ctx.theorems[name] = ax
-        if [a for a in ax if a not in vlib.AXIOM_ALLOWLIST]:
-            ctx.broken.append(("axioms", name, "depends on non-allow-listed axioms: %s" % ax))
-        else:
-            ctx.discharged += 1
+    ctx.extra_props("Props/C29br.v")
     if not ctx.build():
         return
     # 1. model vs implementation, byte for byte (extracted SHA-256 is slow: keep these small)
